@@ -270,8 +270,10 @@ theorem C16_member_child_paths_declared (s : Struct) (hv : validate (.struct s) 
       have hchild := fun es => mem_foldl_of_step _ _ es _ ca hcam (fun y es hm' => ext_childPass _ _ _ y es _ hm') hstep
       split
       · refine mem_foldl_of_mem _ _ _ _ (fun x es hm' => ext_namePass s x.1.core x.2 x.1.fallible es _ hm') ?_
+        refine mem_foldl_of_mem _ _ _ _ (fun y es hm' => ext_childBareParentPass s y es _ hm') ?_
         exact mem_foldl_of_mem _ _ _ _ (fun y es hm' => ext_ghostChildPass _ y es _ hm') (hchild _)
-      · exact mem_foldl_of_mem _ _ _ _ (fun y es hm' => ext_ghostChildPass _ y es _ hm') (hchild _)
+      · refine mem_foldl_of_mem _ _ _ _ (fun y es hm' => ext_childBareParentPass s y es _ hm') ?_
+        exact mem_foldl_of_mem _ _ _ _ (fun y es hm' => ext_ghostChildPass _ y es _ hm') (hchild _)
     rw [hv] at this
     cases this
 
